@@ -14,11 +14,14 @@ func init() {
 			{Name: "C04/bfs-past-d3", Build: plain, Pkg: "internal", Test: "TestVerif_C04", Params: "mode=bfs,depth=3,ents=1,reddl=1,redadv=1,past=1,t0=small", Shards: 1, BudgetS: 60},
 			{Name: "C04/sweep", Build: plain, Pkg: "internal", Test: "TestVerif_C04", Params: "mode=sweep,t0=all", Shards: 2, BudgetS: 60},
 			{Name: "C04/store", Build: plain, Pkg: "internal", Test: "TestVerif_C04", Params: "mode=store,past=1", Shards: 1, BudgetS: 60},
+			// "no earlier than its deadline, whatever its earlier deadlines were": the TTL-extension-in-the-expiry-window drivers written for C06 (the extended value must not be reported at all)
+			{Name: "C04/icb-X1-ttl-extended-in-expiry-window", Build: schedCoarse, Pkg: "internal", Test: "TestVerif_C06Icb", Params: "driver=X1-ttl-extended-in-expiry-window,P=2", Shards: 4, BudgetS: 60},
 			{Name: "C04/icb-K1-tick-vs-size-poll", Build: schedCoarse, Pkg: "internal", Test: "TestVerif_C04_ICB", Params: "driver=K1-tick-vs-size-poll,P=2", Shards: 4, BudgetS: 60},
 			{Name: "C04/icb-K2-tick-vs-writes", Build: schedCoarse, Pkg: "internal", Test: "TestVerif_C04_ICB", Params: "driver=K2-tick-vs-writes,P=2", Shards: 8, BudgetS: 60},
 			{Name: "C04/icb-K3-tick-vs-reads", Build: schedCoarse, Pkg: "internal", Test: "TestVerif_C04_ICB", Params: "driver=K3-tick-vs-reads,P=2", Shards: 4, BudgetS: 60},
 		},
 		Thorough: []Scenario{
+			{Name: "C04/icb-X1-ttl-extended-in-expiry-window", Build: schedCoarse, Pkg: "internal", Test: "TestVerif_C06Icb", Params: "driver=X1-ttl-extended-in-expiry-window,P=3", Shards: 8, BudgetS: 600},
 			{Name: "C04/icb-K1-tick-vs-size-poll", Build: schedCoarse, Pkg: "internal", Test: "TestVerif_C04_ICB", Params: "driver=K1-tick-vs-size-poll,P=3", Shards: 8, BudgetS: 600},
 			{Name: "C04/icb-K2-tick-vs-writes", Build: schedCoarse, Pkg: "internal", Test: "TestVerif_C04_ICB", Params: "driver=K2-tick-vs-writes,P=3", Shards: 16, BudgetS: 600},
 			{Name: "C04/icb-K3-tick-vs-reads", Build: schedCoarse, Pkg: "internal", Test: "TestVerif_C04_ICB", Params: "driver=K3-tick-vs-reads,P=3", Shards: 8, BudgetS: 600},
